@@ -807,5 +807,8 @@ PROPS["C13"]["explanation"] += " (IDHALVES) the SD id validator compares the two
 PROPS["C13"]["rules"] = PROPS["C13"]["rules"] + [rules_handles.rule_index_below_count]
 PROPS["C13"]["explanation"] += " (IDXCOUNT) an index that goes on to address an NC_array is turned away when it is >= count, not only when it is > count."
 
+PROPS["C19"]["rules"] = PROPS["C19"]["rules"] + [rules_tools.rule_field_table_capacity]
+PROPS["C19"]["explanation"] += " (FIELDCAP) a local per-field table indexed up to a Vdata's field count has VSFIELDMAX elements."
+
 NOT_APPLICABLE = {}
 
